@@ -112,7 +112,9 @@ func C19(c *core.Ctx) {
 		n7     int
 		com    bool
 		vi     bool
+		d12    string
 		expect map[string]any
+		img    map[string]any
 	}
 	var sums []sumCase
 	tpl := func(v any) []lds.TemplateShape {
@@ -296,7 +298,8 @@ func C19(c *core.Ctx) {
 			case "wrongdg":
 				wrongs = append(wrongs, wrong{core.Str(x[1]), x[2].(int), exp.(bool)})
 			case "summary":
-				sums = append(sums, sumCase{core.Str(x[1]), tpl(x[2]), x[3].(int), x[4].(bool), x[5].(bool), exp.(map[string]any)})
+				em := exp.(map[string]any)
+				sums = append(sums, sumCase{core.Str(x[1]), tpl(x[2]), x[3].(int), x[4].(bool), x[5].(bool), core.Str(x[6]), em["s"].(map[string]any), em["img"].(map[string]any)})
 			}
 		}})
 	_ = r
@@ -452,7 +455,7 @@ func C19(c *core.Ctx) {
 	// ---- 3. identity summary: precedence rules --------------------------------------------------------------------
 	for si, s := range sums {
 		rnd := rand.New(rand.NewSource(c.Seed*131 + int64(si)))
-		name := fmt.Sprintf("summary/%s/%v/%d/%v/%v", s.d11, s.tpls, s.n7, s.com, s.vi)
+		name := fmt.Sprintf("summary/%s/%v/%d/%v/%v/%s", s.d11, s.tpls, s.n7, s.com, s.vi, s.d12)
 		c.Case(name, true)
 		files := map[string]lds.View{}
 		var docEx document.DocumentEx
@@ -490,6 +493,21 @@ func C19(c *core.Ctx) {
 			}
 			spec, _ := lds.ShapeTagged("DG11", present, rnd.Intn(3), rnd)
 			add("DG11", spec)
+		}
+		if s.d12 != "absent" {
+			present := []string{"issuingAuthority", "dateOfIssue"}
+			if s.d12 == "front" || s.d12 == "both" {
+				present = append(present, "imageFront")
+			}
+			if s.d12 == "rear" || s.d12 == "both" {
+				present = append(present, "imageRear")
+			}
+			spec12, _ := lds.ShapeTagged("DG12", present, rnd.Intn(2), rnd)
+			if spec12.DG12.ImageFront != nil && spec12.DG12.ImageRear != nil { // two different images of different formats
+				spec12.DG12.ImageFront.Format, spec12.DG12.ImageFront.Fill = "jpeg", 11
+				spec12.DG12.ImageRear.Format, spec12.DG12.ImageRear.Fill = "jp2", 22
+			}
+			add("DG12", spec12)
 		}
 		spec2, _ := lds.ShapeDG2(s.tpls, rnd)
 		add("DG2", spec2)
@@ -542,6 +560,13 @@ func C19(c *core.Ctx) {
 		chk(jsonEq(g["nameMrzRaw"], mrzName), "nameMrzRaw", "the MRZ name is not surfaced")
 		if core.Str(e["dobSource"]) == "dg11" {
 			chk(jsonEq(g["dateOfBirth"], lds.Normalize(files["DG11"]).(map[string]any)["fullDateOfBirth"]), "dateOfBirth", "date of birth is not the DG11 full date of birth")
+		}
+		for key, field := range map[string]string{"front": "documentImageFront", "rear": "documentImageRear"} {
+			_, has := g[field]
+			chk(has == s.img[key].(bool), field, fmt.Sprintf("%s: present in the summary %v, in DG12 %v", field, has, s.img[key].(bool)))
+			if has {
+				chk(jsonEq(g[field], lds.Normalize(files["DG12"]).(map[string]any)[map[string]string{"front": "imageFront", "rear": "imageRear"}[key]]), field, field+" is not the "+key+" image of DG12")
+			}
 		}
 		fl, _ := g["faceImages"].([]any)
 		chk(len(fl) == e["faceImages"].(int), "faceImages", fmt.Sprintf("%d face images in DG2, %d in the summary", e["faceImages"].(int), len(fl)))
